@@ -28,7 +28,7 @@
 // tcpmux-connect-not-answered, https-tls-handshake-failed, greeting-not-delivered,
 // visitor-connection-dropped-when-backend-speaks-first, backend-connection-left-open,
 // long-lived-connection-broken-after-idle-<kind>, cross-wired-after-sibling-route-removed,
-// cross-wired-after-refused-duplicate-registration, route-lost-after-refused-duplicate-registration,
+// cross-wired-user-route-shadowed-by-shared-route, cross-wired-after-refused-duplicate-registration, route-lost-after-refused-duplicate-registration,
 // duplicate-route-registration-accepted[-after-refused-one], established-tunnel-cut-by-control-connection-loss-without-tcpmux, stream-altered-down|unprompted-close|delivery-stalled-via-client-plugin.
 package main
 
@@ -103,7 +103,7 @@ transport.maxPoolCount = 5
 
 func main() {
 	run = h.NewRun(prop, "exploration")
-	run.Rule = "case = (server option set, control transport, TLS mode, pool size; 2-3 proxies each with kind, encryption, compression, limiter side+rate, PROXY version, greeting; 3-8 (sometimes 16-36 small simultaneous) connection scripts each with payload sizes, content classes, chunkings, close order); the first cases form a greedy all-pairs covering array over the option factors, the rest are PRNG extras, plus four long-lived cases running next to the others (one per server: every proxy kind, data again in both directions 35 s after the connection was opened) and eleven (thorough: 23) fixed cases (control-connection loss with tcpMux off behind a relay, on both such servers; route churn: sibling tcpmux routes told apart by routeByHTTPUser / sibling https domains plus a wildcard route, one sibling removed by frpc reload or frpc exit and re-added; compressed tunnels ending in client plugins next to many short compressed connections, on two servers; kcp without tcpMux; visitor hand-over parked at a hook while the backend speaks first, on two servers; quic streams whose last read carries data and end-of-stream through a 4 KB/s limiter on either side); distinct = distinct full case signature; every counted connection moved checked bytes or a checked close through a real frpc-frps tunnel"
+	run.Rule = "case = (server option set, control transport, TLS mode, pool size; 2-3 proxies each with kind, encryption, compression, limiter side+rate, PROXY version, greeting; tcpmux domains served by a user-routed and a shared proxy; 3-8 (sometimes 16-36 small simultaneous) connection scripts each with payload sizes, content classes, chunkings, close order); the first cases form a greedy all-pairs covering array over the option factors, the rest are PRNG extras, plus four long-lived cases running next to the others (one per server: every proxy kind, data again in both directions 35 s after the connection was opened) and eleven (thorough: 23) fixed cases (control-connection loss with tcpMux off behind a relay, on both such servers; route churn: sibling tcpmux routes told apart by routeByHTTPUser / sibling https domains plus a wildcard route, one sibling removed by frpc reload or frpc exit and re-added; compressed tunnels ending in client plugins next to many short compressed connections, on two servers; kcp without tcpMux; visitor hand-over parked at a hook while the backend speaks first, on two servers; quic streams whose last read carries data and end-of-stream through a 4 KB/s limiter on either side); distinct = distinct full case signature; every counted connection moved checked bytes or a checked close through a real frpc-frps tunnel"
 	run.Assumptions = []string{
 		"'eventually delivered' is decided as bounded progress: 60 s without a byte on a connection whose both ends are open is a stall; a close must reach the other end within 30 s",
 		"kcp is excluded from the completeness clause of orderly close (the property says reliable transports); prefix, identity and close propagation are still judged over kcp",
@@ -450,8 +450,10 @@ type proxyRT struct {
 	// user name sent in Proxy-Authorization for proxies routed by routeByHTTPUser
 	connectHost string
 	routeUser   string
-	gateHits    atomic.Int64
-	early       sync.Map
+	// the proxy without routeByHTTPUser on the same domain (set on user-routed proxies)
+	sharedPx *proxyRT
+	gateHits atomic.Int64
+	early    sync.Map
 
 	mu            sync.Mutex
 	t0            int64
@@ -505,8 +507,9 @@ type plan struct {
 	// control-loss case: the second exchange of a longidle connection starts when gate2 is closed
 	gate2    chan struct{}
 	ctlLoss  bool
-	softFail bool        // a probe connection whose failure is recorded but not judged
-	inPhase2 atomic.Bool // longidle: the second exchange (after the long idle period) has begun
+	softFail bool
+	wrong    atomic.Pointer[proxyRT] // cross-wired: the proxy whose backend answered        // a probe connection whose failure is recorded but not judged
+	inPhase2 atomic.Bool             // longidle: the second exchange (after the long idle period) has begun
 	phase2   chan struct{}
 	uGot2    chan struct{}
 	bGot2    chan struct{}
@@ -558,7 +561,10 @@ func (cs *caseState) fail(pl *plan, key string, format string, args ...any) {
 		if pl.afterRemoval && key == "cross-wired" {
 			key = "cross-wired-after-sibling-route-removed"
 		}
-		if pl.afterDup {
+		if key == "cross-wired" && pl.px.sharedPx != nil && pl.wrong.Load() == pl.px.sharedPx {
+			// a proxy user with a route of its own was served by the domain's shared (no routeByHTTPUser) proxy
+			key = "cross-wired-user-route-shadowed-by-shared-route"
+		} else if pl.afterDup {
 			switch key {
 			case "cross-wired":
 				key = "cross-wired-after-refused-duplicate-registration"
@@ -693,7 +699,10 @@ func runCase(c *h.Case, cc *caseCfg, sv *srvInfo) {
 
 	for i := range cc.Proxies {
 		p := &cc.Proxies[i]
-		px := &proxyRT{cs: cs, idx: i, cfg: p, name: fmt.Sprintf("%s.p%d", pfx, i), domain: fmt.Sprintf("%sp%d.c01.test", pfx, i)}
+		px := &proxyRT{cs: cs, idx: i, cfg: p, name: fmt.Sprintf("%s.p%d", pfx, i), domain: fmt.Sprintf("%sp%d.c01.test", pfx, i), routeUser: p.RouteUser}
+		if p.DomainOf > 0 {
+			px.domain = fmt.Sprintf("%sp%d.c01.test", pfx, p.DomainOf-1)
+		}
 		viaB := p.Kind == "stcp" || p.Kind == "xtcp"
 		px.reliable = cc.A.Proto != "kcp" && !(viaB && cc.B.Proto == "kcp")
 		px.kcpNoMux = !px.reliable && !sv.tcpMux
@@ -770,6 +779,16 @@ func runCase(c *h.Case, cc *caseCfg, sv *srvInfo) {
 			visitorPorts = append(visitorPorts, port)
 		}
 		plugs = append(plugs, pr)
+	}
+	for _, px := range cs.pxs {
+		if px.routeUser == "" {
+			continue
+		}
+		for _, other := range cs.pxs {
+			if other != px && other.domain == px.domain && other.routeUser == "" && other.cfg.Kind == px.cfg.Kind {
+				px.sharedPx = other
+			}
+		}
 	}
 	var relay *h.TCPRelay
 	if cc.CtlLoss {
@@ -930,6 +949,12 @@ func runCase(c *h.Case, cc *caseCfg, sv *srvInfo) {
 			run.Count("connections_bridged_and_checked", 1)
 			run.Count("script_"+pl.cfg.Script, 1)
 			run.Count("kind_"+pl.px.cfg.Kind, 1)
+			switch {
+			case pl.px.sharedPx != nil:
+				run.Count("tcpmux_user_routed_next_to_shared_route_checked", 1)
+			case pl.px.cfg.DomainOf > 0 && pl.px.routeUser == "":
+				run.Count("tcpmux_shared_route_connections_checked", 1)
+			}
 		}
 	}
 	for _, px := range cs.pxs {
